@@ -1,5 +1,5 @@
 ; Parser vocabulary (C07/C08/C12): the not-found classifier of errors, the parser cursor, tokens in range.
-(module-uses consts spanof)
+(module-uses consts height spanof exprwf)
 
 ; nf(err): errors.As(err, *notFoundError) -- walks Unwrap chains (parseError, compileError) and the
 ; members of a join; opaqueError has no Unwrap, so wrapping in it hides a not-found error
@@ -23,6 +23,8 @@
 (define-fun tokIn ((s Str) (t Token)) Bool (and (spanValid (Token.Span t)) (<= (Span.End (Token.Span t)) (Str.len s))))
 (define-fun-rec toksIn ((s Str) (t Seq_Token)) Bool
   (and (forall ((j Int)) (! (=> (and (<= 0 j) (< j (Seq_Token.len t))) (and (tokIn s (Seq_Token.nth t j)) (< (Span.Start (Token.Span (Seq_Token.nth t j))) (Span.End (Token.Span (Seq_Token.nth t j)))))) :pattern ((Seq_Token.nth t j))))
+       ; an identifier token carries a plain identifier spelling (Scan's token classes, C09)
+       (forall ((j Int)) (! (=> (and (<= 0 j) (< j (Seq_Token.len t)) (= (Token.Kind (Seq_Token.nth t j)) TokenIdentifier)) (plainName (Token.Value (Seq_Token.nth t j)))) :pattern ((Seq_Token.nth t j))))
        ; tokens are in source order and do not overlap
        (forall ((i Int) (j Int)) (! (=> (and (<= 0 i) (< i j) (< j (Seq_Token.len t))) (<= (Span.End (Token.Span (Seq_Token.nth t i))) (Span.Start (Token.Span (Seq_Token.nth t j))))) :pattern ((Seq_Token.nth t i) (Seq_Token.nth t j))))))
 (lemma toksIn-slice
